@@ -241,8 +241,8 @@ def run(ctx):
     for dd, ng, depth in ((2, 12 if quick else 30, 2), (3, 6 if quick else 14, 2 if quick else 3)):
         ggates = L.gaussian_catalogue(dd, rng=rng, size=ng)
         grecs = GR.explore(ctx, dd, ggates, depth)
-        if quick and len(grecs) > 90:
-            grecs = rng.sample(grecs, 90)
+        if len(grecs) > (90 if quick else 600):
+            grecs = rng.sample(grecs, 90 if quick else 600)
         perm = GR.xxpp_to_xpxp_perm(dd)
         for rec in grecs:
             mu_, Gam_, reps, nbar_ = GR.decode(rec, dd)
